@@ -2,7 +2,11 @@
 
 package secp256k1
 
-import "gitlab.com/yawning/secp256k1-voi/internal/field"
+import (
+	"unsafe"
+
+	"gitlab.com/yawning/secp256k1-voi/internal/field"
+)
 
 // VerifFE makes the internal field element type usable from the harness module.
 type VerifFE = field.Element
@@ -69,6 +73,8 @@ var (
 	VerifLookupProjectiveRef func(tbl *[15][3][4]uint64, pre [3][4]uint64, preValid bool, idx uint64) (out [3][4]uint64, valid bool, canaryOK bool)
 	VerifLookupAffineRef     func(tbl *[15][2][4]uint64, pre [2][4]uint64, idx uint64) (out [2][4]uint64, canaryOK bool)
 	VerifLayout              func() (sizeofPoint, offX, offY, offZ, offValid, sizeofAffine uintptr)
+	VerifLookupAffineAt      func(tbl unsafe.Pointer, idx uint64) (out [2][4]uint64)
+	VerifLookupProjectiveAt  func(tbl unsafe.Pointer, idx uint64) (out [3][4]uint64)
 
 	VerifSWU    func(u *VerifFE) (x, y *VerifFE)
 	VerifIsoMap func(x, y *VerifFE) (*VerifFE, *VerifFE, uint64)
